@@ -108,7 +108,7 @@ func (g *Generator) ListTypes() []string {
 		if !g.TestFile(f) {
 			continue
 		}
-		ast.Inspect(f, func(n ast.Node) bool {
+		shoot.InspectTopLevel(f, func(n ast.Node) bool {
 			decl, ok := n.(*ast.GenDecl)
 			if !ok {
 				return true
